@@ -94,8 +94,13 @@ class AsyncContext(object):
         if is_asyncio_mode():
             self.pause()
         else:
-            leave_context(self, self._active_task)
-            self.pause()
+            active_task = self._active_task
+            leave_context(self, active_task)
+            # If the task is being failed while it is suspended (e.g. another context's pause()
+            # raised), its contexts have already been paused and this block is only left because
+            # the generator is closed: don't pause the context a second time.
+            if active_task is None or active_task._contexts_active:
+                self.pause()
             del self._active_task
 
     def resume(self):
